@@ -4,6 +4,7 @@ import TT.Transform.RootAttach
 import TT.Transform.Misc
 import TT.Transform.Traces
 import TT.Spec.HeadRulesPinned
+import TT.Spec.Pinned
 namespace Driver
 open TT TT.Tree
 
@@ -160,14 +161,14 @@ def runOpTransform (op : String) (args : List String) : String :=
       let others := fun (free : Tree → Bool) => okIf (Spec.parentsKept a b free) "other-node-moved"
       match c.name with
       | "punctuation_verylow" => firstFail [okIf (Spec.WF b) "not-well-formed", okIf (Spec.contentKept a b) "content-changed",
-          okIf (Spec.verylowPost b) "punctuation-not-beside-left-neighbour",
-          others (fun s => s.isLeaf && isPunctWord s)]
+          okIf (Spec.verylowPostP b) "punctuation-not-beside-left-neighbour",
+          others (fun s => s.isLeaf && Spec.isPunctWordP s)]
       | "punctuation_root" => firstFail [okIf (Spec.WF b) "not-well-formed", okIf (Spec.contentKept a b) "content-changed",
-          okIf (Spec.rootPost b) "punctuation-not-at-root",
-          others (fun s => s.isLeaf && isPunctWord s)]
+          okIf (Spec.rootPostP b) "punctuation-not-at-root",
+          others (fun s => s.isLeaf && Spec.isPunctWordP s)]
       | "punctuation_symetrify" => firstFail [okIf (Spec.WF b) "not-well-formed", okIf (Spec.contentKept a b) "content-changed",
-          okIf (Spec.symetrifyOK (c.getS "relc") a b) "moved-token-not-paired",
-          others (fun s => s.isLeaf && isPairPunctWord s)]
+          okIf (Spec.symetrifyOKP (c.getS "relc") a b) "moved-token-not-paired",
+          others (fun s => s.isLeaf && Spec.isPairPunctWordP s)]
       | _ => bad
     | _, _ => bad
   | "P.C15", [call, a, b] =>
@@ -219,8 +220,8 @@ def runOpTransform (op : String) (args : List String) : String :=
     | some b =>
       let c := parseTCall call
       match c.name with
-      | "punctuation_verylow" => firstFail [okIf (Spec.WF b) "not-well-formed", okIf (Spec.verylowPost b) "punctuation-not-beside-left-neighbour"]
-      | "punctuation_root" => firstFail [okIf (Spec.WF b) "not-well-formed", okIf (Spec.rootPost b) "punctuation-not-at-root"]
+      | "punctuation_verylow" => firstFail [okIf (Spec.WF b) "not-well-formed", okIf (Spec.verylowPostP b) "punctuation-not-beside-left-neighbour"]
+      | "punctuation_root" => firstFail [okIf (Spec.WF b) "not-well-formed", okIf (Spec.rootPostP b) "punctuation-not-at-root"]
       | "collapse_unary_chains" => firstFail [okIf (Spec.WFc b) "not-well-formed", okIf (!hasUnary b) "unary-left"]
       | "binarize" => firstFail [okIf (Spec.WF b) "not-well-formed", okIf (maxArity b ≤ 2) "arity-above-two"]
       | _ => "ok"
